@@ -519,7 +519,10 @@ class MarkdownNormalizer(Renderer):
     def render_thematic_break(self, _element: block.ThematicBreak) -> str:
         self._skip_next_blank_line = False
         self._suppress_item_break = False
-        result = f"{self._prefix}* * *\n"
+        # Directly behind a `*` list marker, `* * *` would merge with the marker into one
+        # thematic break line (`* * * *`) and the list item would be lost: use dashes there.
+        rule = "---" if self._prefix.rstrip().endswith("*") else "* * *"
+        result = f"{self._prefix}{rule}\n"
         self._prefix = self._second_prefix
         return result
 
